@@ -89,7 +89,7 @@ func (c16) EnumSize(tier string) int {
 	// every (query, ctx kind, resolver kind, entry, cancel point k in 0..n+1)
 	n := 0
 	for i := range c16Queries {
-		n += (c16ResolverCount(i) + 3) * len(c16CtxKinds) * 3 * 2
+		n += (c16ResolverCount(i) + 3) * len(c16CtxKinds) * 3 * 2 * 2
 	}
 	return n
 }
@@ -99,13 +99,18 @@ func (p c16) Gen(seed uint64, enum int, tier string) json.RawMessage {
 	allPark := []string{"resolver", "thunk", "rtype", "scalar", "plan.exec.start", "plan.exec.send", "client"}
 	if enum >= 0 {
 		for i, q := range c16Queries {
-			per := (c16ResolverCount(i) + 3) * len(c16CtxKinds) * 3 * 2
+			per := (c16ResolverCount(i) + 3) * len(c16CtxKinds) * 3 * 2 * 2
 			if enum >= per {
 				enum -= per
 				continue
 			}
 			s.Query = q
 			s.Entry = []string{"do", "plan"}[enum%2]
+			enum /= 2
+			// every placement also with the caller held before its select, so that
+			// result and cancellation are both there when it looks (either branch
+			// may be taken; what it returns must be one of the two legal answers)
+			s.BothReady = enum%2 == 1
 			enum /= 2
 			rk := enum % 3
 			enum /= 3
@@ -124,6 +129,9 @@ func (p c16) Gen(seed uint64, enum int, tier string) json.RawMessage {
 				s.AllThunk = true
 			}
 			s.Park = allPark
+			if s.BothReady {
+				s.Park = append(append([]string(nil), allPark...), "plan.caller.select")
+			}
 			return mustJSON(s)
 		}
 		panic("enum index out of range")
